@@ -9,6 +9,6 @@ import WowSrp.Gen.Constants
 namespace WowSrp
 
 /-- no struct / enum / structural impl lives in a source file the model does not know about -/
-theorem structuralOther_ok : Gen.structuralOther = [] := by decide
+theorem structuralOther_ok : Gen.structuralOther = [] := by decide +kernel
 
 end WowSrp
